@@ -23,10 +23,15 @@ struct RecCond {
     tag: u64,
     log: Arc<Mutex<Vec<(u64, usize, Vec<f64>, f64)>>>,
     calls: u64,
+    nan_answers: bool,
 }
 trait GElt: Copy + PartialEq + std::fmt::Debug + Send + Sync + 'static {
     fn of(v: u64) -> Self;
     fn f(self) -> f64;
+    /// a value that is not equal to itself where the type has one (floats: a NaN with a payload)
+    fn nan_like(v: u64) -> Self {
+        Self::of(v)
+    }
 }
 impl GElt for f64 {
     fn of(v: u64) -> f64 {
@@ -34,6 +39,9 @@ impl GElt for f64 {
     }
     fn f(self) -> f64 {
         self
+    }
+    fn nan_like(v: u64) -> f64 {
+        f64::from_bits(0x7ff8_0000_0000_0000 | (v & 0xffff_ffff))
     }
 }
 impl GElt for f32 {
@@ -63,8 +71,10 @@ impl GElt for usize {
 impl<S: GElt> Conditional<S> for RecCond {
     fn sample(&mut self, index: usize, given: &[S]) -> S {
         self.calls += 1;
-        // unique per (chain tag, call number): tag * 2^14 + call number (exact in f32 for the bounds used)
-        let v = S::of(self.tag * 16384 + self.calls);
+        // unique per (chain tag, call number): tag * 2^14 + call number (exact in f32 for the bounds used);
+        // every 7th answer of a float-valued conditional is a NaN (an answer is an answer: it has to be
+        // stored and handed on like any other value)
+        let v = if self.nan_answers && self.calls % 7 == 3 { S::nan_like(self.tag * 16384 + self.calls) } else { S::of(self.tag * 16384 + self.calls) };
         self.log.lock().unwrap().push((self.tag, index, given.iter().map(|x| x.f()).collect(), v.f()));
         v
     }
@@ -109,7 +119,7 @@ fn call_history<S: GElt + ndarray::LinalgScalar>(p: &Value, ws: bool) -> Outcome
     let d = pus(p, "d");
     let steps = pus(p, "steps");
     let log = Arc::new(Mutex::new(vec![]));
-    let cond = RecCond { tag: 1, log: log.clone(), calls: 0 };
+    let cond = RecCond { tag: 1, log: log.clone(), calls: 0, nan_answers: p.get("nan_answers").and_then(|v| v.as_bool()).unwrap_or(false) };
     let init: Vec<S> = (0..d).map(|j| S::of(9000 + j as u64)).collect();
     let mut chain = GibbsMarkovChain::new(cond, &init);
     // the chain's seed is an input too (pub field): special values incl. the largest
@@ -148,7 +158,7 @@ impl Scenario for CallHistory {
     }
     fn generate(&self, g: &mut Gen, _t: Tier, _i: u64) -> Value {
         let cs = crate::props::c07::special_seed(g, 4);
-        json!({"elt": *g.pick(&["f64", "f64", "f32", "i32", "usize"]), "d": g.usize(1, 64), "steps": g.usize(1, 20), "chain_seed": cs.to_string()})
+        json!({"elt": *g.pick(&["f64", "f64", "f32", "i32", "usize"]), "d": g.usize(1, 64), "steps": g.usize(1, 20), "chain_seed": cs.to_string(), "nan_answers": g.bool(1, 3)})
     }
     fn execute(&self, p: &Value, ws: bool) -> Outcome {
         match ps(p, "elt") {
@@ -314,7 +324,7 @@ impl Scenario for SamplerHistory {
     fn generate(&self, g: &mut Gen, _t: Tier, _i: u64) -> Value {
         let nc = g.usize(1, 16);
         let ss = crate::props::c07::special_seed(g, nc);
-        json!({"n_chains": nc, "d": g.usize(1, 12), "n_collect": g.usize(1, 8), "n_discard": g.usize(0, 5), "sampler_seed": ss.to_string(), "sim": gen_sim(g, nc + 1, false)})
+        json!({"n_chains": nc, "d": g.usize(1, 12), "n_collect": g.usize(1, 8), "n_discard": g.usize(0, 5), "sampler_seed": ss.to_string(), "nan_answers": g.bool(1, 3), "sim": gen_sim(g, nc + 1, false)})
     }
     fn execute(&self, p: &Value, ws: bool) -> Outcome {
         let mut o = Outcome::default();
@@ -322,9 +332,10 @@ impl Scenario for SamplerHistory {
         let log = Arc::new(Mutex::new(vec![]));
         let log2 = log.clone();
         let sseed = pu(p, "sampler_seed");
+        let nan_answers = p.get("nan_answers").and_then(|v| v.as_bool()).unwrap_or(false);
         let cfg = sim_cfg(&p["sim"]);
         let (rep, out) = run_sim(&cfg, move || {
-            let cond = RecCond { tag: 0, log: log2.clone(), calls: 0 };
+            let cond = RecCond { tag: 0, log: log2.clone(), calls: 0, nan_answers: nan_answers };
             let init: Vec<Vec<f64>> = (0..nc).map(|c| (0..d).map(|j| 9000.0 + (c * 100 + j) as f64).collect()).collect();
             let mut s = GibbsSampler::new(cond, init).set_seed(sseed);
             for (c, ch) in s.chains.iter_mut().enumerate() {
